@@ -121,7 +121,12 @@ class Fn:
         if k == "tuple":
             ts = [self.ty(x, env) for x in e[1]]
             return "(" + ",".join(t or "?" for t in ts) + ")"
-        if k in ("if", "iflet", "match", "block"):
+        if k == "if" and e[3] is not None:
+            t1 = self.ty(e[2], env)
+            return t1 or self.ty(e[3], env)
+        if k == "block":
+            return self.ty(e[2], env) if e[2] is not None and not e[1] else None
+        if k in ("iflet", "match"):
             return None
         if k == "unary":
             return "bool" if e[1] == "!" else self.ty(e[2], env)
@@ -522,6 +527,30 @@ class Fn:
             return "match %s with %s end" % (ss, " ".join(parts))
         return render(0)
 
+    def effect_of(self, s, env):
+        """an effectful statement of the function (table spec['effects']) -> the Gallina effect term, else None"""
+        table = self.spec.get("effects")
+        if not table:
+            return None
+        e = None
+        if s[0] == "expr":
+            e = s[1]
+        elif s[0] == "let" and s[1][0] == "pwild" and s[3] is not None:
+            e = s[3]
+        if e is None:
+            return None
+        if e[0] == "try":
+            e = e[1]
+        if e[0] == "call" and e[1][0] == "path":
+            name = "::".join(e[1][1])
+            if name in table:
+                return self.apply(table[name], [self.ex(a, env) for a in e[2]])
+        if e[0] == "mcall" and e[1][0] == "path" and len(e[1][1]) == 1:
+            key = e[1][1][0] + "." + e[2]
+            if key in table:
+                return self.apply(table[key], [self.ex(a, env) for a in e[3]])
+        return None
+
     def sorter(self, t):
         f = self.spec.get("sort", {}).get(t)
         if not f:
@@ -597,6 +626,9 @@ class Fn:
 
         def after(env_):
             return self.stmts(rest, tl, env_, ctx)
+        eff = self.effect_of(s, env)
+        if eff is not None:
+            return "let effs := effs ++ [%s] in %s" % (eff, after(env))
         if k == "let":
             pat, ty_, e, els = s[1], s[2], s[3], s[4]
             if e is None:
@@ -639,6 +671,14 @@ class Fn:
                     lets.append((self.var(q[1]), self.ex(x, env)))
                     out_env[q[1]] = tx
                 return "".join("let %s := %s in " % l for l in lets) + after(out_env)
+            if pat[0] == "ptuple" and all(q[0] == "pbind" for q in pat[1]):
+                # let (x, y, ..) = <any expression of tuple type>;
+                tt = self.ty(e, env)
+                parts = split_top(tt[1:-1]) if tt and tt.startswith("(") and tt.endswith(")") else []
+                out_env = dict(env)
+                for i, q in enumerate(pat[1]):
+                    out_env[q[1]] = parts[i] if len(parts) == len(pat[1]) and parts[i] != "?" else None
+                return "let '(%s) := %s in %s" % (", ".join(self.var(q[1]) for q in pat[1]), self.ex(e, env), after(out_env))
             raise Unsupported("let pattern")
         if k == "assign" and s[1][0] == "field":
             lhs, op, e = s[1], s[2], s[3]
@@ -837,7 +877,7 @@ def translate_fn(src, name, within, spec, gname, gparams, gret, env_types=None, 
     loops = "while" in json.dumps(body)
     if loops:
         top = Ctx(val=(lambda s: "Some " + paren(s)), ret=(lambda s: "Some " + paren(s)), fall=None)
-    text = fn.block(body, env, top)
+    text = spec.get("prologue", "") + fn.block(body, env, top)
     fuel = "(fuel : nat) " if fn.uses_fuel else ""
     rt = ("option " + paren(gret)) if fn.uses_fuel else gret
     return "Definition %s %s%s : %s :=\n  %s." % (gname, fuel, gparams, rt, text)
@@ -902,6 +942,42 @@ def functions():
         return translate_fn(src, "load", "Archive", spec, "g_archive_load",
                             "(path expected_pair : list Z)", "option (Z * list Z * E)", self_type="Archive")
     out.append(("archive_load", "src/bin/copia/archive.rs Archive::load", None, t_archive_load))
+
+    def t_apply():
+        src = read("src/bin/copia/bidir.rs")
+        params, ret, body = R.find_fn(src, "apply", None)
+        # the conflict-copy name: `<rel>.conflict-<host>-<short_hex(loser digest)>` built by a block that is checked literally
+        want = ("let", ("pbind", "loser_name"), None,
+                ("block",
+                 [("let", ("pbind", "n"), None, ("mcall", ("mcall", ("path", ["rel"]), "as_os_str", []), "to_owned", []), None),
+                  ("expr", ("mcall", ("path", ["n"]), "push", [("macro", "format", [("str", '".conflict-{host}-{}"'), ("op", ","), ("id", "short_hex"), ("op", "("), ("op", "&"), ("id", "lose_fp"), ("op", "."), ("id", "blake3"), ("op", ")")])]), True)],
+                 ("call", ("path", ["PathBuf", "from"]), [("path", ["n"])])), None)
+        found = [x for x in json.loads(json.dumps(body), object_hook=None) if False]
+        def walk(n):
+            if isinstance(n, (list, tuple)):
+                if len(n) >= 2 and n[0] == "let" and list(n[1]) == ["pbind", "loser_name"]:
+                    yield n
+                for c in n:
+                    yield from walk(c)
+        lets = list(walk(json.loads(json.dumps(body))))
+        if len(lets) != 1 or lets[0] != json.loads(json.dumps(want)):
+            raise Unsupported("apply: the conflict-copy name is no longer built as `<rel>` + format!(\".conflict-{host}-{}\", short_hex(&lose_fp.blake3))")
+        spec = dict(
+            signature=[("root_a", "Path"), ("root_b", "Path"), ("rel", "Path"), ("act", "Action"), ("a", "FpMap"), ("b", "FpMap"), ("host", "str"),
+                       ("common", "FpMap"), ("conflicts", "Vec<PathBuf>")],
+            param_types={"root_a": "Side", "root_b": "Side"},
+            rename={"root_a": "SA", "root_b": "SB"},
+            paths=dict(fp_spec["paths"]),
+            fields={("Fingerprint", "blake3"): ("{0}", "[u8;32]")},
+            ord={"[u8;32]": {">=": "dge"}},
+            calls={".join": ("{0}, {1}", "Place"), ".get": ("{0} !! {1}", "Option<Fingerprint>"),
+                   ".contains_key": ("bool_decide (is_Some ({0} !! {1}))", "bool")},
+            effects={"copy_atomic": "ECopy {0} {1}", "std::fs::remove_file": "ERemove {0}", "common.insert": "ERecord {0} {1}",
+                     "common.remove": "EForget {0}", "conflicts.push": "EConflict {0}"},
+            let_conv={"loser_name": "(cname rel lose_fp)"},
+            ok=lambda s_: "effs", prologue="let effs := [] in ")
+        return translate_fn(src, "apply", None, spec, "g_apply", "(rel : K) (act : Reconcile.action) (a b : gmap K D)", "list eff")
+    out.append(("apply", "src/bin/copia/bidir.rs apply", None, t_apply))
 
     def t_cas():
         src = read("src/bin/copia/wire.rs")
@@ -1016,6 +1092,7 @@ GROUPS = {
     # group -> (imports, needs the digest section, [function keys], properties whose models rest on these functions)
     "Reconcile": ("Model.Reconcile", True, ["same", "reconcile_path", "reconcile"]),
     "Cas": ("", True, ["cas_decide"]),
+    "BisyncApply": ("", "bisync", ["apply"]),
     "Archive": ("Model.Archive", "archive", ["archive_load"]),
     "Plan": ("Model.Glob Model.Plan", False, ["needs_transfer", "glob_match", "is_excluded", "build_plan"]),
     "Protocol": ("Model.Checksum Model.Delta Model.Protocol", False, ["from_u8", "hvalidate"]),
@@ -1056,7 +1133,13 @@ def main():
         body = HEADER % (group, imports)
         if group == "Cas":
             body += "\nInductive g_cas := GCommit | GConflict.\n"
-        if digest == "archive":
+        if digest == "bisync":
+            body = ("(** GENERATED by tools/gen_logic.py from /repo's CURRENT source - do not edit.\n    bidir.rs `apply` as the LIST OF EFFECTS it performs, in order (copy_atomic, remove_file, the inserts/removes on the\n"
+                    "    common state, the conflict counter); Proofs/TieBisyncApply.v proves that running these effects is Model/Bisync.v's [apply]. *)\n"
+                    "From stdpp Require Import gmap.\nFrom Copia Require Import Model.Reconcile Model.Bisync Model.BisyncEffects.\n\n"
+                    "Section WithBisync.\nContext `{Countable K} {D : Type} `{EqDecision D}.\nVariable dge : D -> D -> bool.\nVariable cname : K -> D -> K.\n"
+                    "Notation eff := (@eff K D).\n\n" + "\n".join(texts) + "End WithBisync.\n")
+        elif digest == "archive":
             body += ("\nSection WithParser.\nVariable E : Type.\nVariable parse : list Z -> option (Z * list Z * E).\n"
                      "Variable file : list Z -> option (list Z).   (* std::fs::read(path).ok() *)\n\n" + "\n".join(texts) + "End WithParser.\n")
         elif digest:
